@@ -1137,3 +1137,163 @@ Proof.
   apply strict_domb_sound in Hsd.
   exact (stage_conformance fa okN okF L (scfg_of c ns) g Hk Ha Ho Hsd thr Ht Ht0 P C (HP ins P C ID Htr Hpr) shapes Hsh).
 Qed.
+
+(** * Part 6 -- the premise [profile_exact] as a boolean (run-time monitor of
+    the premise, and non-vacuity of T4 on concrete runs) *)
+Section ExactB.
+  Variable okN : N -> Prop.
+  Variable okNb : N -> bool.
+  Hypothesis okNb_ok : forall d, okNb d = true -> okN d.
+  Variable cfg : scfg.
+  Variable G : graph.
+  Let tau := x_tau cfg.
+  Let sns := x_shapes_ns cfg.
+
+  Definition has_entry (pd : pdict) (p k : str) (ck : ckey) : bool :=
+    existsb (fun pm : str * dict cdict =>
+      str_eqb p (fst pm) &&
+      existsb (fun kc : str * cdict =>
+        str_eqb k (fst kc) && existsb (fun cn : ckey * N => ckey_eqb ck (fst cn)) (snd kc)) (snd pm)) pd.
+
+  Lemma ckey_eqb_eq a b : ckey_eqb a b = true <-> a = b.
+  Proof. destruct a, b; cbn; try (split; congruence). rewrite N.eqb_eq. split; congruence. Qed.
+
+  Lemma has_entry_spec pd p k ck : has_entry pd p k ck = true ->
+    exists m cd n, In (p, m) pd /\ In (k, cd) m /\ In (ck, n) cd.
+  Proof.
+    unfold has_entry. intros H. apply existsb_exists in H. destruct H as [[p' m] [H1 H]].
+    apply andb_true_iff in H. destruct H as [Ep H]. apply str_eqb_eq in Ep. cbn in Ep, H. subst p'.
+    apply existsb_exists in H. destruct H as [[k' cd] [H2 H]].
+    apply andb_true_iff in H. destruct H as [Ek H]. apply str_eqb_eq in Ek. cbn in Ek, H. subst k'.
+    apply existsb_exists in H. destruct H as [[ck' n] [H3 H]]. apply ckey_eqb_eq in H. cbn in H. subst ck'.
+    exists m, cd, n. repeat split; assumption.
+  Qed.
+
+  Definition dir_exactb (ce : str * centry) (inv : bool) : bool :=
+    let insts := instances_of tau G (fst ce) in
+    let pd := class_pd ce inv in
+    forallb (fun pm : str * dict cdict =>
+      forallb (fun kc : str * cdict =>
+        forallb (fun cn : ckey * N =>
+          N.eqb (snd cn) (n_inst node insts (fun i => ck_ok cfg (fst pm) (fst cn) (cntk tau sns G i inv (fst pm) (fst kc)))) &&
+          N.ltb 0 (snd cn) &&
+          match fst cn with
+          | CKn _ => str_eqb (fst pm) tau || existsb (fun cn' : ckey * N => ckey_eqb CKplus (fst cn')) (snd kc)
+          | CKplus => true
+          end) (snd kc)) (snd pm)) pd &&
+    forallb (fun i =>
+      forallb (fun p =>
+        forallb (fun x =>
+          forallb (fun k => has_entry pd p k (if str_eqb p tau then CKn 1 else CKplus))
+                  (keys_of tau sns G inv p x)) (nbrs G i inv p)) (preds_in G)) insts.
+
+  Definition class_exactb (C : ccounts) (ce : str * centry) : bool :=
+    let insts := instances_of tau G (fst ce) in
+    match insts with [] => false | _ => true end &&
+    N.eqb (class_cnt C ce) (N.of_nat (List.length insts)) && okNb (class_cnt C ce) &&
+    dir_exactb ce false && (negb (x_inverse cfg) || dir_exactb ce true).
+
+  Definition profile_exactb (P : cprofile) (C : ccounts) : bool :=
+    forallb (class_exactb C) P &&
+    forallb (fun c => existsb (fun ce : str * centry => str_eqb (fst ce) c) P) (classes_in tau G) &&
+    forallb (fun ce1 : str * centry =>
+      forallb (fun ce2 : str * centry =>
+        negb (str_eqb (shape_name sns (fst ce1)) (shape_name sns (fst ce2))) || str_eqb (fst ce1) (fst ce2)) P) P.
+
+  Lemma dir_exactb_sound ce inv : dir_exactb ce inv = true ->
+    pd_wf cfg node (instances_of tau G (fst ce)) (cntk tau sns G) inv (class_pd ce inv) /\
+    (forall p m k cd ck n, In (p, m) (class_pd ce inv) -> In (k, cd) m -> In (ck, n) cd -> (0 < n)%N) /\
+    (forall i p k, In i (instances_of tau G (fst ce)) -> (0 < cntk tau sns G i inv p k)%N ->
+       exists m cd n, In (p, m) (class_pd ce inv) /\ In (k, cd) m /\
+                      In ((if str_eqb p tau then CKn 1 else CKplus), n) cd).
+  Proof.
+    unfold dir_exactb. intros H. apply andb_true_iff in H. destruct H as [HA HB].
+    rewrite forallb_forall in HA.
+    assert (HA' : forall p m k cd ck n, In (p, m) (class_pd ce inv) -> In (k, cd) m -> In (ck, n) cd ->
+              n = n_inst node (instances_of tau G (fst ce)) (fun i => ck_ok cfg p ck (cntk tau sns G i inv p k)) /\
+              (0 < n)%N /\
+              match ck with
+              | CKn _ => p = tau \/ exists n', In (CKplus, n') cd
+              | CKplus => True
+              end).
+    { intros p m k cd ck n H1 H2 H3. specialize (HA (p, m) H1). cbn in HA. rewrite forallb_forall in HA.
+      specialize (HA (k, cd) H2). cbn in HA. rewrite forallb_forall in HA. specialize (HA (ck, n) H3). cbn in HA.
+      apply andb_true_iff in HA. destruct HA as [HA C3]. apply andb_true_iff in HA. destruct HA as [C1 C2].
+      apply N.eqb_eq in C1. apply N.ltb_lt in C2. split; [exact C1|]. split; [exact C2|].
+      destruct ck; [|exact I]. apply orb_true_iff in C3. destruct C3 as [C3|C3].
+      - left. apply str_eqb_eq. exact C3.
+      - right. apply existsb_exists in C3. destruct C3 as [[ck' n'] [Hin E]]. cbn in E.
+        destruct ck'; [discriminate E|]. exists n'. exact Hin. }
+    split; [split|split].
+    - intros p m k cd ck n H1 H2 H3. apply (HA' p m k cd ck n H1 H2 H3).
+    - intros p m k cd j n H1 H2 H3 Hp. destruct (HA' p m k cd (CKn j) n H1 H2 H3) as (_ & _ & [E|E]); [contradiction | exact E].
+    - intros p m k cd ck n H1 H2 H3. apply (HA' p m k cd ck n H1 H2 H3).
+    - intros i p k Hi Hpos. rewrite forallb_forall in HB. specialize (HB i Hi). rewrite forallb_forall in HB.
+      unfold cntk in Hpos.
+      destruct (filter (fun x => mem_str k (keys_of tau sns G inv p x)) (nbrs G i inv p)) as [|x r] eqn:E;
+        [cbn in Hpos; lia|].
+      assert (Hx : In x (filter (fun x => mem_str k (keys_of tau sns G inv p x)) (nbrs G i inv p)))
+        by (rewrite E; left; reflexivity).
+      apply filter_In in Hx. destruct Hx as [Hx Hk]. apply mem_str_In in Hk.
+      assert (Hp : In p (preds_in G)).
+      { apply nbrs_In in Hx. destruct Hx as (t & Ht & Hpt & _). unfold preds_in. rewrite <- Hpt. apply in_map. exact Ht. }
+      specialize (HB p Hp). rewrite forallb_forall in HB. specialize (HB x Hx). rewrite forallb_forall in HB.
+      apply has_entry_spec. apply HB. exact Hk.
+  Qed.
+
+  Lemma profile_exactb_sound P C : profile_exactb P C = true -> profile_exact okN cfg G P C.
+  Proof.
+    unfold profile_exactb. rewrite !andb_true_iff. intros [[H1 H2] H3].
+    rewrite forallb_forall in H1, H2, H3. split; [|split].
+    - intros ce Hce. specialize (H1 ce Hce). unfold class_exactb in H1. rewrite !andb_true_iff in H1.
+      destruct H1 as [[[[A1 A2] A3] A4] A5]. cbv zeta.
+      split; [intros E; unfold tau in A1; rewrite E in A1; discriminate|].
+      split; [apply N.eqb_eq; exact A2|]. split; [apply okNb_ok; exact A3|].
+      assert (Hdir : forall inv, (inv = true -> x_inverse cfg = true) -> dir_exactb ce inv = true).
+      { intros [|] Hd; [|exact A4]. rewrite (Hd eq_refl) in A5. exact A5. }
+      split; [|split].
+      + intros inv Hd. apply (dir_exactb_sound ce inv (Hdir inv Hd)).
+      + intros inv Hd. apply (dir_exactb_sound ce inv (Hdir inv Hd)).
+      + intros inv Hd. apply (dir_exactb_sound ce inv (Hdir inv Hd)).
+    - intros t cn Ht Hp Ho. assert (Hc : In (nid cn) (classes_in tau G)).
+      { unfold classes_in. apply in_flat_map. exists t. split; [exact Ht|]. fold tau in Hp.
+        rewrite <- Hp, str_eqb_refl, Ho. left. reflexivity. }
+      specialize (H2 _ Hc). apply existsb_exists in H2. destruct H2 as [ce [Hce E]]. apply str_eqb_eq in E.
+      exists ce. split; assumption.
+    - intros ce1 ce2 Hc1 Hc2 E. specialize (H3 ce1 Hc1). rewrite forallb_forall in H3. specialize (H3 ce2 Hc2).
+      fold sns in E. rewrite E, str_eqb_refl in H3. cbn in H3. apply str_eqb_eq. exact H3.
+  Qed.
+End ExactB.
+
+(** both premises of [run_conformance], computed on the model's own tracker and profiler *)
+Definition c03_premises (okNb : N -> bool) (c : rcfg) (g : graph) : option (bool * bool) :=
+  match full_ns c with
+  | None => None
+  | Some ns =>
+    match track (r_tau c) (match r_targets c with Some l => TClasses l | None => TAll end) (r_cap c) g with
+    | inr _ => None
+    | inl ins =>
+      match profile (pcfg_of c) ins g with
+      | inl (P, C, _) => Some (strict_domb (r_tau c) (r_shapes_ns c) g, profile_exactb okNb (scfg_of c ns) g P C)
+      | inr _ => None
+      end
+    end
+  end.
+
+(** T4 with computed premises: when both booleans hold the run's schema is satisfied *)
+Theorem run_conformance_checked fa okN okF (L : FreqLaws fa okN okF) okNb c thr g ns shapes :
+  (forall d, okNb d = true -> okN d) ->
+  r_keep_less_specific c = true -> r_all_compliant c = true -> r_disable_or c = true ->
+  okF thr -> (forall x, okF x -> fle fa thr x = true) ->
+  c03_premises okNb c g = Some (true, true) ->
+  run_shapes fa c thr g = inl (ns, shapes) ->
+  valid_typingb (schema_of (r_tau c) shapes) g (instance_typing (r_tau c) (r_shapes_ns c) g) = true.
+Proof.
+  intros Hok Hk Ha Ho Ht Ht0 Hprem Hrun. apply valid_typingb_valid.
+  destruct (run_shapes_inv _ _ _ _ _ _ Hrun) as (ins & P & C & ID & Hns & Htr & Hpr & Hsh).
+  unfold c03_premises in Hprem. rewrite Hns, Htr, Hpr in Hprem. injection Hprem as Hsd Hpe.
+  eapply (run_conformance fa okN okF L c thr g ns shapes); try eassumption.
+  intros ins' P' C' ID' Htr' Hpr'. rewrite Htr in Htr'. inversion Htr'; subst ins'.
+  rewrite Hpr in Hpr'. inversion Hpr'; subst P' C' ID'.
+  apply (profile_exactb_sound okN okNb Hok). exact Hpe.
+Qed.
